@@ -21,7 +21,7 @@ func init() { core.Register(check{}) }
 func (check) ID() string    { return "C01" }
 func (check) Level() string { return "exploration" }
 func (check) Rule() string {
-	return "for every shape in Scalars u T(1) u T(2) (thorough: + T(3) subset), container size n in 0..3 (position-distinct elements), plus a variant with the first field of every struct absent: every root-to-node path and every invalid last step (absent field/index=len,len+1,-1,2^31/absent key; every wrong path kind; absent-inner) through Node/Value GetByPath (id- and name-addressed, bin-key twins), the stepwise API (Field/FieldByName/Index/GetByStr/GetByInt/GetByRaw), bulk lookups (Fields/Indexes/Gets/GetMany/GetTree: every ordered selection of <=3 children + an absent one), Children (lazy/recursive), Foreach/ForeachKV, Interface/List/StrMap/IntMap/InterfaceMap/Len/typed casts, under every combination of the read options; oracle = type, value and byte span (offset+length inside the input) of ref/tbin. A case = (shape, size, api family); non-trivial if it performed at least one API call on a container or scalar; api_calls counts individual calls. Later additions: lookups in two hops from every inner node, mixed key spellings in bulk lookups, containers of more than 64 children, dirty result slices (scalar children of a recursive listing must carry no children)."
+	return "for every shape in Scalars u T(1) u T(2) (thorough: + T(3) subset), container size n in 0..3 (position-distinct elements), plus a variant with the first field of every struct absent: every root-to-node path and every invalid last step (absent field/index=len,len+1,-1,2^31/absent key; every wrong path kind; absent-inner) through Node/Value GetByPath (id- and name-addressed, bin-key twins), the stepwise API (Field/FieldByName/Index/GetByStr/GetByInt/GetByRaw), bulk lookups (Fields/Indexes/Gets/GetMany/GetTree: every ordered selection of <=3 children + an absent one), Children (lazy/recursive), Foreach/ForeachKV, Interface/List/StrMap/IntMap/InterfaceMap/Len/typed casts, under every combination of the read options; oracle = type, value and byte span (offset+length inside the input) of ref/tbin. A case = (shape, size, api family); non-trivial if it performed at least one API call on a container or scalar; api_calls counts individual calls. Later additions: lookups in two hops from every inner node, mixed key spellings in bulk lookups, containers of more than 64 children, dirty result slices (scalar children of a recursive listing must carry no children). Thorough tier: container sizes 4, 5, 16, 17 (shapes of depth <= 2 for 16 / 17)."
 }
 func (check) Assumptions() []string {
 	return []string{"reference = ref/tbin span table (cross-checked against cloudwego/gopkg at self-check)", "absent element: any error result is accepted (the API uses ErrNotFound and ErrInvalidParam interchangeably for out-of-range indexes); present element: must be a non-error result with exact type+span", "BYTE values are presented as uint8 by the library (Interface() -> int 0..255)"}
@@ -122,12 +122,23 @@ func (check) Enumerate(tier string, seed int64, group int, yield func(core.Case)
 	if hi > len(all) {
 		hi = len(all)
 	}
+	sizes := []int{0, 1, 2, 3}
+	if tier == "thorough" {
+		// container sizes on both sides of the thresholds of the indexed child storage (16 / 17)
+		sizes = append(sizes, 4, 5, 16, 17)
+	}
 	for _, s := range all[lo:hi] {
-		for n := 0; n <= 3; n++ {
+		for _, n := range sizes {
 			if n > 1 && s.Depth() == 0 {
 				continue
 			}
+			if n > 5 && s.Depth() > 2 {
+				continue // 17^3 leaves per value: depth <= 2 only
+			}
 			for _, drop := range []int{0, 1, 2, 3} {
+				if n > 3 && drop != 0 {
+					continue
+				}
 				if drop == 1 && (!hasStruct(s) || n != 2) {
 					continue
 				}
@@ -486,8 +497,20 @@ func invalidSteps(v *tbin.Val, s *tbin.Shape, buf []byte) (abs []tutil.PE, absTr
 				add(tutil.PE{K: 's', S: string(v.K[0].S[:len(v.K[0].S)-1])}, "strkey-prefix")
 			}
 		case tbin.BYTE, tbin.I16, tbin.I32, tbin.I64:
-			add(tutil.PE{K: 'k', I: 0}, "intkey")
-			add(tutil.PE{K: 'k', I: -7}, "intkey")
+			// (with large values the generator's byte counter wraps: only keys that really are absent)
+			hasKey := func(x int64) bool {
+				for _, kk := range v.K {
+					if kk.I == x || (v.KT == tbin.BYTE && int8(kk.I) == int8(x)) {
+						return true
+					}
+				}
+				return false
+			}
+			for _, x := range []int{0, -7} {
+				if !hasKey(int64(x)) {
+					add(tutil.PE{K: 'k', I: x}, "intkey")
+				}
+			}
 			if len(v.K) > 0 {
 				// keys that alias a present key after truncation to the key width / to 32 bits
 				k0 := int(v.K[0].I)
